@@ -333,6 +333,32 @@ class World:
             raise BuildError(m["kind"])
         return aa.Mapper(mapper_grids=mg, regularization=self._reg(s.get("reg")), over_sampler=over_sampler, border_relocator=border, run_time_dict=rtd)
 
+    def _b_regularization(self, s):
+        return self._reg(s["reg"])
+
+    def _b_mesh_grid(self, s):
+        """A source-plane mesh grid as a node of its own, so that several mappers can share the very same object."""
+        import autoarray as aa
+
+        mask = self.n(s["mask"])
+        sub = self._sub(s.get("sub_size", 1), mask)
+        grid = aa.OverSamplerUniform(mask=mask, sub_size=sub).over_sampled_grid
+        if s["mesh"]["kind"] == "rectangular":
+            return aa.Mesh2DRectangular.overlay_grid(shape_native=tuple(s["mesh"]["shape"]), grid=grid)
+        pts = self.own(s["id"], "mesh_points", floats(s["mesh"]["points"], (-1, 2)))
+        return aa.Mesh2DDelaunay(values=pts)
+
+    def _b_mapper_shared(self, s):
+        """A mapper assembled by hand from SHARED parts: a mesh-grid node and a regularization node other mappers use too."""
+        import autoarray as aa
+
+        mask = self.n(s["mask"])
+        sub = self._sub(s.get("sub_size", 1), mask)
+        over_sampler = aa.OverSamplerUniform(mask=mask, sub_size=sub)
+        mg = aa.MapperGrids(mask=mask, source_plane_data_grid=over_sampler.over_sampled_grid, source_plane_mesh_grid=self.n(s["mesh_grid"]),
+                            image_plane_mesh_grid=None, adapt_data=self.opt(s.get("adapt")))
+        return aa.Mapper(mapper_grids=mg, regularization=self.opt(s.get("regularization")), over_sampler=over_sampler)
+
     def _b_func_list(self, s):
         import autoarray as aa
 
